@@ -22,6 +22,20 @@ CLAIMED = {
         "operation (runOps_refines, C01_trace). The model is tied to the C++ by a three-way differential run (implementation, model, "
         "spec) after every executed operation: spec-guided deep scripts, every opcode x boundary operands, flag toggles, all scripts of <=2 bytes.",
         "DESIGN.md section 6 (C01)", "Lean 4 refinement proof (model ≈ spec per opcode, induction over the script) + per-step differential correspondence"),
+    "C02": claim(
+        "Lean theorems for every transaction, input index, amount, script code, hash type, annex and code-separator position: the legacy, BIP143 and "
+        "BIP341/342 digests computed by SignatureHash / SignatureHashSchnorr (modelled with CTransactionSignatureSerializer, the PrecomputedTransactionData "
+        "caches and every failure return) equal the digests the BIPs define (legacySighash_eq_spec_partial for script codes that decode — always the case in a "
+        "session, decode_of_hasValidOps —, bip143Sighash_eq_spec, schnorrSighash_eq_spec, schnorrSighash_none_iff); the transaction checker accepts exactly "
+        "the valid signatures (checkECDSA_eq_spec, checkSchnorr_eq_spec with error codes, BIP65/BIP112 lock times); a session using the transaction checker "
+        "refines the specification run with the BIP oracle state by state (C02_trace, C02_opcode: every query the session makes is answered alike — sameOn_tx, "
+        "runOps_congr with the invariant that the hashed script code decodes, decode_findAndDelete); opcode-level tables on the specification and their model "
+        "corollaries: OP_CHECKSIG(VERIFY) true exactly when ecdsaSigValid (C02_checksig_true_iff, C02_model_checksig_accepts_iff), the encoding error selected "
+        "by each flag (sigEncoding_*_iff, keyEncoding_*_iff, NULLFAIL, CONST_SCRIPTCODE), tapscript CHECKSIG/CHECKSIGADD with the 50-unit charge, empty signature, "
+        "unknown key types (checkSig_tapscript, C02_tapscript_weight), CHECKMULTISIG = in-order matching (matchSigs_inorder, NULLDUMMY). Key path (no script) is in C03. "
+        "Correspondence: digests x all 256 hash types x kinds with an independent Python voice, checker on signed inputs and their corruptions, real-chain signatures, "
+        "explicit-script sessions under legacy/BIP143 rules and tapscript leaves signed by the independent signer with per-field corruptions under flag subsets.",
+        "DESIGN.md section 6 (C02)", "Lean 4 proofs (serializer = BIP digest, checker = validity predicate, congruence of the interpreter in its checker, opcode tables) + four-voice differential correspondence"),
     "C04": claim(
         "Lean theorem C04_rewind_exact: for every session and every history over {step, rewind} of any length in which no step fails, the "
         "state reached equals — as a whole record, including condition stack, code-separator position, signature budget, op count and the "
